@@ -33,6 +33,7 @@ extern "C" __attribute__((used)) const char *__tsan_default_options() {
   return "exitcode=66:halt_on_error=1:report_signal_unsafe=0:second_deadlock_stack=0:report_thread_leaks=0";
 }
 
+extern "C" long fine_pairs(void);
 namespace sim {
 void canary_plans(const std::string &prop, std::vector<std::pair<std::string, std::pair<Plan, std::string>>> &out);
 }
@@ -666,6 +667,8 @@ int cmd_run(const Args &a) {
   s.set("corpus_dropped", (long)corpus_dropped());
   s.set("oracle_entries", enc_cache_size());
   s.set("oracle_unstable", enc_unstable_count());
+  if (coverage_fit_triples()) s.set("fit_triples_distinct", coverage_fit_triples());
+  if (gp.prop == "C18") s.set("overlap_pairs", fine_pairs());
   if (gp.prop == "C12") {
     s.set("c12_transitions_covered", c12_transitions_covered());
     s.set("c12_transition_min_hits", c12_transition_min());
